@@ -29,6 +29,7 @@ ASSUMPTIONS = []
 def run(rep, ctx):
     rep.run_rule("C10.R1", "Scalar and Array go through the same database operation with operands on their own sides", r1_one_impl, ctx)
     rep.run_rule("C10.R2", "pairing of two list/tuple operands is length-guarded", r2_zip, ctx)
+    rep.run_rule("C10.R2", "pairing of two list/tuple operands is length-guarded", r2_consumes, ctx)
     rep.run_rule("C10.R3", "locals read after the per-element loop are definitely assigned", r3_definite, ctx)
     rep.run_rule("C10.R3", "locals read after the per-element loop are definitely assigned", r3b_result_quantity, ctx)
     rep.run_rule("C10.R4", "result container: tuple iff IsTuple(), which depends only on the iterated operands", r4_container, ctx)
@@ -208,6 +209,53 @@ def r2_zip(rep, ctx):
                 ok = differ is not None and cfg.must_raise_from([(tn, differ)])
             rep.check(bool(ok), "C10.R2", "_ValueGenerator.__iter__:length-check-first", "the branch pairing two iterated operands starts with the length check",
                       "the branch that pairs two list/tuple operands does something before comparing their lengths (an early exit for an empty operand lets [] + [1.0] through)", node=first or st, fn=fn)
+
+
+def r2_consumes(rep, ctx):
+    """The length check lives in the iteration of the value generator: every result of Array._DoOperation is built
+    either under IsNumpy() (whole operands, numpy's own rules) or after a statement that iterates the generator to its
+    end.  An exit that skips the iteration (a shortcut for an empty operand, say) lets operands of different lengths
+    through."""
+    m = ctx.model
+    fn = dispatch.do_operation(m, "Array")
+    cfg = CFG(fn.node)
+    res = Resolver(m, fn)
+
+    def is_gen(t):
+        alts = alternatives(t)
+        return bool(alts) and all(a_[0] == "call" and a_[1] in (("name", "_ValueGenerator"),) for a_ in alts)
+
+    consuming = set()
+    for x in own_nodes(fn.node):
+        if isinstance(x, (ast.For, ast.AsyncFor)) and is_gen(res.term(x.iter)):
+            consuming.add(id(x))
+        elif isinstance(x, (ast.ListComp, ast.GeneratorExp, ast.SetComp)) and is_gen(res.term(x.generators[0].iter)):
+            st = x
+            while not isinstance(st, ast.stmt):
+                st = st._parent
+            if isinstance(x, ast.ListComp) or isinstance(getattr(x, "_parent", None), ast.Call) and isinstance(x._parent.func, ast.Name) and x._parent.func.id in ("list", "tuple"):
+                consuming.add(id(st))
+        elif isinstance(x, ast.Call) and isinstance(x.func, ast.Name) and x.func.id in ("list", "tuple") and len(x.args) == 1 and is_gen(res.term(x.args[0])):
+            st = x
+            while not isinstance(st, ast.stmt):
+                st = st._parent
+            consuming.add(id(st))
+    if not consuming:
+        raise AnalysisError("Array._DoOperation: no statement iterating the _ValueGenerator object was found (pairing idiom changed)")
+    numpy_tests = [nid for nid in cfg.nodes("test") if (lambda t: t[0] == "call" and t[1][0] == "attr" and t[1][2] == "IsNumpy" and is_gen(t[1][1]))(res.term(cfg.ast[nid]))]
+    n = 0
+    avoid = {k for k in cfg.kind if cfg.ast[k] is not None and id(cfg.ast[k]) in consuming}
+    avoid_edges = {(nid, b_, lab) for nid in numpy_tests for (b_, lab) in cfg.succ[nid] if lab == "T"}
+    free = cfg.reach(cfg.ENTRY, avoid=avoid, avoid_edges=avoid_edges)  # reachable with neither the numpy verdict nor an iteration
+    for r in cfg.returns():
+        node = cfg.ast[r]
+        if node.value is None:
+            continue
+        n += 1
+        ok = r not in free
+        rep.check(ok, "C10.R2", "Array._DoOperation:iterates-before:%s" % norm(ast.unparse(node))[:50], "a result for list/tuple operands is built only after the value generator was iterated (its length check ran)",
+                  "`%s` can be reached without iterating the value generator: its length check is skipped, so operands of different lengths (an empty one, say) are accepted" % norm(ast.unparse(node))[:60], node=node, fn=fn)
+    rep.floor("C10.R2", "results of Array._DoOperation", n, 1)
 
 
 def r3_definite(rep, ctx):
